@@ -5,6 +5,7 @@ package c02
 
 import (
 	"fmt"
+	"github.com/kercylan98/vivid/verif/internal/vt"
 	"os"
 	"strconv"
 	"sync"
@@ -22,6 +23,7 @@ var mainHook = func(m *testing.M) { vstat.Main(m.Run) }
 // TestC02RingModel: rapid state machine, reference model = Go slice.
 func TestC02RingModel(t *testing.T) {
 	rapid.Check(t, func(rt *rapid.T) {
+		vt.Progress() // the package's watchdog (world tests) must not take a long pure run for a hang
 		size := rapid.SampledFrom([]int{1, 2, 3, 4, 5, 7, 8, 9, 256}).Draw(rt, "size")
 		q := queues.New(int64(size))
 		var model []int
@@ -154,6 +156,7 @@ func tail(s []string, n int) []string {
 func TestC02RingBoundaries(t *testing.T) {
 	cases := 0
 	for size := 1; size <= 9; size++ {
+		vt.Progress()
 		for pre := 0; pre <= 2*size+1; pre++ {
 			for popped := 0; popped <= pre; popped++ {
 				q := queues.New(int64(size))
@@ -211,6 +214,7 @@ func TestC02RingConcurrent(t *testing.T) {
 	}
 	seed, _ := strconv.ParseUint(os.Getenv("VERIF_RSEED"), 10, 64)
 	for r := 0; r < rounds; r++ {
+		vt.Progress()
 		x := seed + uint64(r)*0x9e3779b97f4a7c15
 		producers := 2 + int(x%7)
 		perProducer := []int{100, 1000, 5000, 20000}[(x>>8)%4]
